@@ -36,6 +36,23 @@ def run(ctx):
             for hold in (60, 130, 260, 520):
                 runs.append(("wake", [n, "signal", 3, hold]))
                 runs.append(("wake", [n, "broadcast", 3, hold]))
+    # generation scenario: events as fast as possible, wake-ups issued outside the critical section, waiters in predicate loops (not logged;
+    # the verdict is the watchdog's: an event that was broadcast and is not seen within 5 s)
+    for n, how, rounds in ([(2, "broadcast", 60000), (3, "broadcast", 30000), (3, "signal", 10000)] if ctx.quick else [(2, "broadcast", 300000), (5, "broadcast", 100000), (3, "signal", 100000), (1, "signal", 100000)]):
+        cmd = [exe, "gen", ctx.path("gen"), str(n), how, str(rounds)]
+        rc, out, to = run_driver(cmd, timeout=120)
+        if rc == 4:
+            # watchdog-evident: it has to show again (the race is narrow: up to three more executions)
+            again = False
+            for _ in range(3):
+                rc2, out2, to2 = run_driver(cmd, timeout=120)
+                if rc2 == 4:
+                    again, out = True, out2
+                    break
+            if again:
+                ctx.violation("gen:lost-wakeup", "generation scenario (%d waiters, %s after leaving the critical section): %s" % (n, how, out.strip()[-200:]), [])
+        elif rc != 0 or to:
+            ctx.violation("gen:%s" % ("hang" if to else "crash"), "generation scenario rc=%s" % rc, [])
     for i, (mode, a) in enumerate(runs):
         base = ctx.path("cv%d" % i)
         cmd = [exe, mode, base] + [str(x) for x in a] + ([str(rng.randint(1, 10 ** 6))] if mode == "pc" else [])
